@@ -305,6 +305,8 @@ const PIN_NAMES: &[&str] = &[
     "Testdata", "In", "Out", "string", "D_out",
     // blanks that are NOT among the five the header scanner splits at: part of the name
     "N\u{a0}B", "\u{3000}W", "L\u{2028}S", "K\u{85}",
+    // words of the test language (the header has its own scanner), names that differ in letter case or extend one another
+    "end", "loop", "X", "a", "AB", "true", "A_out_out",
 ];
 
 pub fn gen_circuit(r: &mut Prng) -> Circuit {
